@@ -91,6 +91,7 @@ def oracle(prog, idx):
     fails = []
     gc.collect()
     ex = progs.RealExec()
+    ro_names = {st[1] for st in prog if st[0] == "leaf" and len(st) > 5 and st[5] == "RO"}
     outcomes = []
     boundary_seen = False
     stale_mode = False      # a failing in-place update has happened after an epoch boundary
@@ -104,6 +105,10 @@ def oracle(prog, idx):
         grads_before = {n: (None if t.grad is None else np.array(t.grad)) for n, t in ex.v.items()}
         r = ex.step(st)
         outcomes.append(r)
+        if any(ex.v[n].data.flags.writeable for n in ro_names if n in ex.v):
+            # a natively read-only array has become writeable: the memory guard's recorded defect (C08, id re-use). Whether
+            # a later write to it is refused then depends on object addresses; the history is outside this oracle.
+            return []
         if r != "ok" and st[0] != "back":
             after = snapshot(ex)
             if st[0] in INPLACE_K and boundary_seen:
@@ -136,6 +141,8 @@ def oracle(prog, idx):
         for t in ex2.v.values():
             _ = t.grad
         ex2.step(st)
+        if any(ex2.v[n].data.flags.writeable for n in ro_names if n in ex2.v):
+            return fails  # (as above)
     sa, sb = snapshot(ex)[0], snapshot(ex2)[0]
     d = snap_diff((sa, {}), (sb, {}), skip=("identity", "base") if stale_mode else ("identity",))
     if d is not None and stale_msg is not None:
